@@ -113,8 +113,10 @@ namespace hs
             else if (has(sut, "coll."))
             {
                 bool        small = has(sut, ".small."), lg = has(sut, ".log2.");
-                std::size_t mx    = lg ? r.pick<std::size_t>({8, 16, 24, 32, 64, 100, 128, 256, 512}) :
-                                         r.size_biased(8, 48);
+                // at least two buckets: with a single one the default reservation is a whole block, which no
+                // block can serve once fences are added (under-specified precondition, stricter reading taken)
+                std::size_t mx = lg ? r.pick<std::size_t>({9, 16, 24, 32, 64, 100, 128, 256, 512}) :
+                                      r.size_biased(9, 48);
                 p.set("max_node" + sfx, (long long)mx);
                 std::size_t buckets;
                 if (lg)
